@@ -32,7 +32,7 @@ _ZSEP = ["\u2028", "\u2029", "\u00a0", "\u2003", "\u3000"]
 _XML = ["&", "<", ">", '"', "'", "&amp;", "]]>", "<!--"]
 _PUNCT = ["#", "!", "+", "(", ")", ",", ";", "=", "@", "~", "`", "$", "%", "^", "{", "}", "[", "]", "*", "?", "\\", ":", "|"]
 
-NAME_CLASSES = ["plain", "space", "xml", "punct", "uni", "zsep", "dash", "dot", "nearmiss", "long"]
+NAME_CLASSES = ["plain", "space", "xml", "punct", "uni", "zsep", "dash", "dot", "nearmiss", "long", "dotend", "dotunder", "appledouble"]
 FORBIDDEN = {".", "..", ASC, ".DS_Store", ""}
 
 
@@ -60,6 +60,13 @@ def gen_name(rng, cls=None, ext=True):
         n = rng.choice(["ascmhl2", "ascmhl.txt", "my_ascmhl", ".DS_Store2", "x.DS_Store", "Ascmhl", "ASCMHL", "ascmhl "])
     elif cls == "long":
         n = stem * rng.randint(8, 20)
+    elif cls == "dotend":
+        n = stem + rng.choice([".", "..", "_."])
+        ext = False
+    elif cls == "dotunder":
+        n = stem[:2] + "._" + stem[2:]
+    elif cls == "appledouble":
+        n = "._" + stem
     else:
         raise ValueError(cls)
     if ext and cls not in ("nearmiss",) and rng.random() < 0.7:
@@ -100,7 +107,7 @@ def gen_tree(
     sizes=None,
 ):
     """returns {posix relpath: bytes | None(dir)}; parents are always present as explicit directory entries"""
-    classes = classes or ["plain", "plain", "space", "xml", "punct", "uni", "zsep", "dash", "dot", "nearmiss", "long"]
+    classes = classes or ["plain", "plain", "space", "xml", "punct", "uni", "zsep", "dash", "dot", "nearmiss", "long", "dotend", "dotunder", "appledouble"]
     dirs = [""]
     depth = {"": 0}
     tree = {}
